@@ -632,7 +632,12 @@ func (self *LockCommandData) GetValueOffset() int {
 		return 6
 	}
 	if self.DataFlag&LOCK_DATA_FLAG_CONTAINS_PROPERTY != 0 {
-		return (int(self.Data[6]) | (int(self.Data[7]) << 8)) + 8
+		valueOffset := (int(self.Data[6]) | (int(self.Data[7]) << 8)) + 8
+		if valueOffset > len(self.Data) {
+			// the property header announces more than the frame carries: the value is empty
+			return len(self.Data)
+		}
+		return valueOffset
 	}
 	return 6
 }
@@ -728,7 +733,7 @@ func (self *LockCommandData) DecodeLockCommand(lockCommand *LockCommand) error {
 		if dataLen <= 0 {
 			return nil
 		}
-		if len(self.Data) < valueOffset+dataLen+68 {
+		if dataLen < 2 || len(self.Data) < valueOffset+dataLen+68 {
 			return errors.New("data size error")
 		}
 		copy(buf[4:], self.Data[valueOffset+68:valueOffset+dataLen+68])
@@ -869,7 +874,12 @@ func (self *LockResultCommandData) GetValueOffset() int {
 		return 6
 	}
 	if self.DataFlag&LOCK_DATA_FLAG_CONTAINS_PROPERTY != 0 {
-		return (int(self.Data[6]) | (int(self.Data[7]) << 8)) + 8
+		valueOffset := (int(self.Data[6]) | (int(self.Data[7]) << 8)) + 8
+		if valueOffset > len(self.Data) {
+			// the property header announces more than the frame carries: the value is empty
+			return len(self.Data)
+		}
+		return valueOffset
 	}
 	return 6
 }
